@@ -41,6 +41,9 @@ pub const ELEMENTARY: &[Entry] = &[
     e("addone", Small),
     e("noop", Small),
     e("longlat", GeoRad),
+    e("latlon", GeoRad),
+    e("latlong", GeoRad),
+    e("lonlat", GeoRad),
     e("adapt from=neuf_deg to=enuf_gon", GeoDeg),
     e("adapt from=neuf", GeoRad),
     e("geo:in", GeoDeg),
